@@ -45,6 +45,23 @@ def _paths(states):
     return behs
 
 
+def _trace(out):
+    """The counterexample trace TLC printed to stdout, as a behaviour (list of state dicts)."""
+    from lib import tlaparse
+    lines = out.splitlines()
+    try:
+        i = next(k for k, l in enumerate(lines) if l.startswith('State 1:'))
+    except StopIteration:
+        return None
+    keep = []
+    for l in lines[i:]:
+        if l.startswith('State ') or l.startswith('/\\') or l.startswith(' ') or not l.strip():
+            keep.append(l)
+        else:
+            break
+    return tlaparse.parse_states_file('\n'.join(keep))
+
+
 def _par(*fns):
     """Runs the callables concurrently (TLC runs are dominated by JVM start-up on a loaded machine)."""
     res = [None] * len(fns)
@@ -169,7 +186,58 @@ def c36(c):
                       'Client.Refresh(ExpireAt=0) is modelled as the tree under test implements it (probed): it does or does not clear the armed expiry deadline']
 
 
-CHECKS = {'C09': c09, 'C43': c43, 'C36': c36}
+LIFE_KEEP = ('step', 'st', 'rd', 'cl', 'who', 'spawned', 'shc', 'shut', 'out', 'cb')
+
+
+def _life(c, prop, pushes):
+    quick = c.tier == 'quick'
+    c._specdir('Connect')
+    design = ('life_quick.cfg' if quick else 'life_thorough.cfg') if not pushes else ('first_quick.cfg' if quick else 'first_thorough.cfg')
+    sim_cfg = 'first_sim.cfg' if pushes else 'life_sim.cfg'
+    runs = [lambda: c.tlc_exhaustive('Connect', 'ConnLife', design, workers=4, timeout=3000),
+            lambda: c.go_build('connect')]
+    if not pushes:
+        # witness schedules: counterexamples of the model WITHOUT the shutdown guard (the code as it is), always replayed
+        runs += [lambda: c.tlc('Connect', 'ConnLife', 'life_wit.cfg', workers=1, timeout=600, expect_violation=True),
+                 lambda: c.tlc('Connect', 'ConnLife', 'life_wit2.cfg', workers=1, timeout=600, expect_violation=True)]
+    rs = _par(*runs)
+    r, binp = rs[0], rs[1]
+    c.log('TLC exhaustive %s: %d distinct / %d generated, depth %d' % (design, r['distinct'], r['states'], r['depth']))
+    behs = []
+    for w in rs[2:]:
+        t = _trace(w['out'])
+        if not t:
+            raise vf.Inconclusive('witness run produced no schedule:\n' + w['out'][-1500:])
+        behs.append(t)
+    nb = 400 if quick else 4000
+    s = c.tlc('Connect', 'ConnLifeSim', sim_cfg, simulate=nb, depth=40, timeout=1500)
+    if not s['ok']:
+        raise vf.Inconclusive('simulation failed: %s\n%s' % (s['error'], s['out'][-3000:]))
+    behs += c.behaviours(s)
+    behs = [[{k: x[k] for k in LIFE_KEEP} for x in b] for b in behs]
+    c.log('%d behaviours (%d witness schedules)' % (len(behs), len(rs) - 2))
+    res = c.harness(binp, 'c08', {'ss': True, 'pushes': pushes, 'behaviours': behs}, timeout=2400)
+    c.absorb(res)
+    c.cov['traces_validated_against_impl'] = res['completed']
+    c.cov['evaluations'] = res['executed']
+    c.cov['distinct_nontrivial'] = res['nontrivial']
+    c.cov['replay_counters'] = res['counters']
+    c.cov['samples'] = res['samples'][:2]
+    c.log('replay: %d executed, %d completed, %d non-trivial, %s' % (res['executed'], res['completed'], res['nontrivial'], res['counters']))
+    c.assumptions += ['two connections on one node, JSON protocol, in-memory transport (the WebSocket handler\'s own shutdown check before NewClient is not exercised)',
+                      'threads are held only where a public interface call exists: OnConnecting, Broker.Subscribe of a connect-time subscription, OnConnect, OnAlive, Transport.Close',
+                      'a close() that is neither parked nor blocked runs at once; at most one close() waits on connectMu behind a reader (wake-up order of several is arbitrary)',
+                      'Guard: the model refuses a connection once shutdown began; witness schedules come from the unguarded model']
+
+
+def c08(c):
+    _life(c, 'C08', False)
+    c.cov['rule'] = ('behaviours of ConnLife.tla (TLC -simulate with slot weights, plus 2 witness schedules of the unguarded model), each replayed on its own node with the reader, tick and '
+                     'close threads parked at OnConnecting / Broker.Subscribe / OnConnect / OnAlive / Transport.Close as the model says; non-trivial = completed behaviour in which a connect '
+                     'handshake passed its authentication step, a tick or a close ran, distinct by step list')
+
+
+CHECKS = {'C09': c09, 'C43': c43, 'C36': c36, 'C08': c08}
 
 _note9 = ('Bounds: exhaustive design check 2 commands (quick) / 3 (thorough) with arbitrarily delayed close goroutines, 1 async callback, 2 timer firings, 1 environment close; '
           'exhaustive replay: all sequences of <= 3 commands (alphabet of 56 symbols x id modes, 6 environment configurations) with <= 1 async callback; simulated replay: <= 7 commands, '
@@ -178,7 +246,16 @@ _note43 = ('Bounds: streams of 0..3 (quick) / 0..6 (thorough) publications, limi
            'HistoryMaxPublicationLimit {0,2} / {0,1,2,4}; presence with <= 3 / 4 subscribers. Exhaustive within the bounds. Trusted: TLC, lib/tlaparse.py, harness comparison code.')
 _note36 = ('Bounds: exhaustive 4 s / 5 actions (quick), 6 s / 7 actions (thorough) over 12 configurations; replay 400 / 3000 simulated behaviours of <= 5 s and <= 8 actions. '
            'Ping 1 s, pong timeout 0.4 s, grace delays 1 s, expiries 1-2 s, refresh extends by 2 s. Trusted: TLC, lib/tlaparse.py, harness TimerScheduler and monitor code, wall clock.')
+_note8 = ('Bounds: 2 connections, one connect-time server-side subscription, <= 2 (quick) / 3 (thorough) environment actions exhaustively with arbitrarily delayed closers; replay 400 / 4000 simulated '
+          'behaviours of <= 40 steps with <= 5 environment actions. Trusted: TLC, lib/tlaparse.py, harness gates and monitor code.')
 META = {
+    'C08': dict(level='model_checking',
+                text='ConnLife.tla models the connect handshake (OnConnecting, authentication + hub registration, connect-time server-side subscription, reply, OnConnect under connectMu, status '
+                     'change, timers), the presence tick (presenceMu, OnAlive), close() (connectMu for its whole duration, status flip, hub removal, Transport.Close, presenceMu, unsubscribe loop '
+                     'waiting for an in-flight connect-time subscription, disconnect callback iff it was connected) started by Client.Disconnect / the transport / Node.Shutdown (flag, hub '
+                     'snapshot, one close per connection, return) for two connections; TLC checks the callback-order, unsubscribe-count and after-shutdown monitors exhaustively; simulated and '
+                     'witness behaviours are replayed on real nodes with every thread parked where the model says (natural gates only) and the monitors are evaluated on the real callback logs.',
+                note=_note8, technique='TLA+ spec + TLC exhaustive; gate replay on real clients through natural gates; witness schedules; observable-only monitors'),
     'C36': dict(level='model_checking',
                 text='ConnTimers.tla transcribes the timer layer (stale timer, scheduleOnConnectTimers, the single multiplexed timer with its tie order, sendPing/checkPong with the lastPing sign, '
                      'expire/checkExpired, handleRefresh, Client.Refresh, the presence tick\'s subscription expiry with client- and server-side refresh, handleSubRefresh) and states C36 as action '
